@@ -170,6 +170,27 @@ def run(res, tier):
                                  'from the same fit with an empty memo cache (stale memoised factorisation): the cost minimised is '
                                  'not the documented one', coef_difference=d, status_after_history=st2, status_fresh=st3,
                             estimator=repr(second), X=Xh.tolist()))
+    # another LMI estimator fitted earlier with degrading solver settings must not change what a later estimator with
+    # default settings is solved with
+    for h in range(2 if tier == 'quick' else 8):
+        cls = [L.LmiEdmd, L.LmiDmdc][h % 2]
+        Xh, _, _ = lmi.linear_data(rng, 2, 1, kind='stable', n_eps=2, length=12, noise=0.05)
+        try:
+            ref = cls(alpha=0.5, solver_params=lmi.SOLVER).fit(Xh, n_inputs=1, episode_feature=True)
+            cls(alpha=0.5, solver_params=dict(lmi.SOLVER, max_iterations=3)).fit(Xh, n_inputs=1, episode_feature=True)
+            later = cls(alpha=0.5, solver_params=lmi.SOLVER).fit(Xh, n_inputs=1, episode_feature=True)
+        except Exception:  # noqa
+            dist['fit_error'] = dist.get('fit_error', 0) + 1
+            continue
+        dist['history/after_degraded_fit_of_another_object'] = dist.get('history/after_degraded_fit_of_another_object', 0) + 1
+        want = dict(lmi.PRISTINE_SOLVER_DEFAULTS, **lmi.SOLVER)
+        d = float(np.max(np.abs(later.coef_ - ref.coef_)))
+        if later.solver_params_ != want or d > 1e-4 * max(1.0, float(np.max(np.abs(ref.coef_)))) \
+                or getattr(later, 'solution_status_', 'optimal') != getattr(ref, 'solution_status_', 'optimal'):
+            bad.append(dict(what='a fit with default solver settings is influenced by the solver settings of ANOTHER estimator object '
+                                 'fitted earlier in the process: the returned matrix is not the minimiser of the documented cost',
+                            solver_params_used={k: v for k, v in later.solver_params_.items() if want.get(k) != v},
+                            coef_difference=d, status=getattr(later, 'solution_status_', None), estimator=repr(later), X=Xh.tolist()))
     ev = sum(v for k, v in dist.items() if k not in ('fit_error', 'ill_conditioned_skipped', 'not_optimal_status',
                                                      'sweep_pivoting', 'sweep_no_pivot'))
     res.coverage.update(
